@@ -105,11 +105,58 @@ func runC35(c *Ctx) {
 			continue
 		}
 		call, isCall := r.Results[0].(*ssa.Call)
+		// the hash may be taken in a small helper (merkleLeaf(item), merkleBranch(left, right)): its parameters then
+		// stand for the arguments passed here
+		bind := map[*ssa.Parameter]ssa.Value{}
+		if isCall && !strings.HasSuffix(calleeName(&call.Call), ".Blake2b256Hash") {
+			if h := samePkgHelper(node, &call.Call); h != nil && h != node {
+				var inner *ssa.Call
+				n := 0
+				for _, hb := range h.Blocks {
+					if hr, ok := hb.Instrs[len(hb.Instrs)-1].(*ssa.Return); ok && len(hr.Results) == 1 {
+						n++
+						if hc, ok := hr.Results[0].(*ssa.Call); ok && strings.HasSuffix(calleeName(&hc.Call), ".Blake2b256Hash") {
+							inner = hc
+						}
+					}
+				}
+				if n == 1 && inner != nil {
+					for i, q := range h.Params {
+						if i < len(call.Call.Args) {
+							bind[q] = call.Call.Args[i]
+						}
+					}
+					call = inner
+				}
+			}
+		}
 		if !isCall || !strings.HasSuffix(calleeName(&call.Call), ".Blake2b256Hash") {
 			c.Bad("merkle-node", key+":return:"+shortArg(trace(r.Results[0])), r.Pos(), "merkleNode returns %s, not a Blake2b-256 hash of a tagged preimage", shortArg(trace(r.Results[0])))
 			continue
 		}
+		// a part that is (a slice of) a helper parameter reads as the argument bound to it
+		resolve := func(v ssa.Value) ssa.Value {
+			if q, ok := v.(*ssa.Parameter); ok {
+				if a, ok := bind[q]; ok {
+					return a
+				}
+			}
+			return v
+		}
 		base, parts := unpack(call.Call.Args[0])
+		if len(parts) == 0 {
+			if ps, ok := concatParts(call.Call.Args[0]); ok && len(ps) >= 2 {
+				base, parts = ps[0], ps[1:]
+			}
+		} else if !isTag(byteLit(base), lt) && !isTag(byteLit(base), bt) && len(parts) >= 1 {
+			// append chain over an empty buffer: the first appended part is the tag
+			if ms, isMS := base.(*ssa.Slice); !isMS || ms.High == nil || desc(ms.High) == "0" {
+				base, parts = parts[0], parts[1:]
+			}
+		}
+		for i := range parts {
+			parts[i] = resolve(parts[i])
+		}
 		// which case: dominated by len == 1 ?
 		v := c.mustPass(node, []ssa.Instruction{r}, func(f string) bool { return f == "len(p0) == 1" })
 		if v[0].OK {
@@ -120,11 +167,35 @@ func runC35(c *Ctx) {
 			continue
 		}
 		// branch
-		okB := len(parts) == 3 && isTag(byteLit(parts[0]), bt)
+		okB := len(parts) == 2 && isTag(byteLit(base), bt)
 		var lcall, rcall *ssa.Call
 		if okB {
-			lcall = hashArrayOrigin(parts[1])
-			rcall = hashArrayOrigin(parts[2])
+			origin := func(v ssa.Value) *ssa.Call {
+				if cl := hashArrayOrigin(v); cl != nil {
+					return cl
+				}
+				// left[:] of a helper parameter holding the child hash
+				if sl, ok := v.(*ssa.Slice); ok {
+					if al, ok := sl.X.(*ssa.Alloc); ok {
+						var val ssa.Value
+						cnt := 0
+						for _, rr := range *al.Referrers() {
+							if st, ok := rr.(*ssa.Store); ok && st.Addr == ssa.Value(al) {
+								val = st.Val
+								cnt++
+							}
+						}
+						if cnt == 1 {
+							if cl, ok := resolve(val).(*ssa.Call); ok {
+								return cl
+							}
+						}
+					}
+				}
+				return nil
+			}
+			lcall = origin(parts[0])
+			rcall = origin(parts[1])
 			okB = lcall != nil && rcall != nil && lcall.Call.StaticCallee() == node && rcall.Call.StaticCallee() == node
 		}
 		if okB {
@@ -134,10 +205,6 @@ func runC35(c *Ctx) {
 			if okB {
 				splitVal = ls.High
 			}
-		}
-		if ms, isMS := base.(*ssa.Slice); okB && isMS {
-			// combined starts empty
-			okB = ms.High != nil && desc(ms.High) == "0"
 		}
 		c.Check(okB, "merkle-node", key+":branch", r.Pos(), "branch = H(0x01 ‖ node(items[:s]) ‖ node(items[s:])) with one split value s", "the branch hash is not Blake2b256(branchTag ‖ left ‖ right) over items[:s] and items[s:] of the same list with one split point: parts "+joinTraces(parts))
 		branchOK = okB
